@@ -239,11 +239,65 @@ namespace sim::io
          log_event( Ev::CA_UNWIND, rid< hk_ca< 0 > >(), 0, 1, 0, snap( in ), sid_of( st... ) );
       }
    };
+   // 11: parse_nested: the action of n_inc< K > parses the text between '<' and '>' as a grammar of its own, with the
+   //     position of the n_inc match as ambient position. std::exception-derived exceptions of the inner run come back
+   //     as a parse_error at the ambient position that nests them (message: the inner top rule's own error_message for
+   //     K = 1, the default naming it for K = 0); anything else passes unchanged.
+   struct n_word : pegtl::plus< pegtl::alpha > {};
+   struct n_item : pegtl::sor< n_word, pegtl::seq< pegtl::one< '!' >, pegtl::must< pegtl::digit > >, pegtl::one< '.' > > {};
+   struct n_inner : pegtl::seq< pegtl::star< n_item >, pegtl::eof > {};
+   struct n_inner_msg : pegtl::seq< pegtl::star< n_item >, pegtl::eof >
+   {
+      static constexpr const char* error_message = "inner grammar failed";
+   };
+   template< int K > struct n_inc : pegtl::seq< pegtl::one< '<' >, pegtl::star< pegtl::not_one< '>', '<' > >, pegtl::one< '>' > > {};
+   struct n_safe_pe : pegtl::try_catch_return_false< pegtl::one< '?' >, n_inc< 0 > > {};
+   struct n_safe_std : pegtl::try_catch_std_return_false< pegtl::one< '$' >, n_inc< 1 > > {};
+   struct n_renest : pegtl::try_catch_raise_nested< pegtl::one< '^' >, n_inc< 0 > > {};
+   struct g_nest : pegtl::until< pegtl::eof, pegtl::sor< n_inc< 0 >, pegtl::seq< pegtl::one< '#' >, n_inc< 1 > >, n_safe_pe, n_safe_std, n_renest, n_word, pegtl::any > > {};
+
+   template< int K > struct n_call : pegtl::success {};   // not part of any grammar: names the parse_nested call in the history
+
+   template< int K >
+   struct nest_action
+   {
+      static constexpr int family = 1;
+      template< typename AI, typename... St >
+      static void apply( const AI& ai, St&&... st )
+      {
+         const Snap b = action_snap( ai );
+         log_action( Ev::A_APPLY, rid< n_inc< K > >(), 1, b, b.byte + static_cast< std::uint32_t >( ai.size() ), span_hash( ai, b ), sid_of( st... ), true );
+         const pegtl::position p = ai.position();
+         // the inner input is the bracketed part of the outer data itself, numbered like the outer input
+         pegtl::memory_input< pegtl::tracking_mode::eager, mem_eol, std::string > inner( ai.begin() + 1, ai.end() - 1, "sim", p.byte + 1, p.line, p.column + 1 );
+         using top_t = std::conditional_t< K == 0, n_inner, n_inner_msg >;
+         // the call is recorded as an invocation of its own (n_call< K >, a catcher of std::exception that nests)
+         Snap at = b;
+         at.flags |= F_SUB;  // like every event of the stock inputs: no end / depth bookkeeping
+         const std::uint32_t r = rid< n_call< K > >();
+         log_event( Ev::ENTER, r, F_ACTION, 1, 1, at, sid_of( st... ) );
+         try {
+            on_enter();
+            const bool result = pegtl::parse_nested< top_t, sim_action, sim_control >( p, inner, st... );
+            on_leave();
+            log_event( Ev::EXIT, r, F_ACTION | ( result ? F_RESULT : 0 ), 1, 1, at, sid_of( st... ) );
+         }
+         catch( ... ) {
+            on_leave();
+            const std::uint32_t xi = classify_current_exception();
+            log_event( Ev::EXC, r, F_ACTION, 1, 1, at, sid_of( st... ), xi );
+            throw;
+         }
+      }
+   };
    // clang-format on
 }  // namespace sim::io
 
 namespace sim
 {
+   template< int K >
+   inline constexpr bool is_dispatch< io::n_call< K > > = true;  // no hooks expected for the pseudo rule
+
    // clang-format off
    template<> struct sim_action< io::line > : pegtl::discard_input { static constexpr int family = 1; };
    template< int K > struct sim_action< io::w_cs< K > > : pegtl::change_state< io::dstate > { static constexpr int family = 1; };
@@ -267,6 +321,8 @@ namespace sim
    };
    template<> struct sim_action< io::hk_ca< 0 > > : io::ca_hooks_unwind {};
    template<> struct sim_action< io::hk_ca< 1 > > : io::ca_hooks< 1 > {};
+   template< int K > struct sim_action< io::n_inc< K > > : io::nest_action< K > {};
+   template<> inline constexpr int action_kind_1< io::n_word > = 1;
    template<> inline constexpr int action_kind_1< io::hk_word > = 1;
    template<> inline constexpr int action_kind_1< io::hk_num > = 2;
    template<> inline constexpr int action_kind_1< io::hk_dot > = 3;
